@@ -878,6 +878,13 @@ regp_recv(RegP *p, RPMaybeFrame *mf)
     default: {
         const int rc = rfc1055_decode(&p->ep.slip, &p->ep.source, &recv);
         if (rc < 0) {
+            if (rc != -EILSEQ && (cs.buffer.data != NULL || fb.used > 0u)) {
+                /* Part of a frame was received and is dropped here. What the
+                 * channel delivers next is the rest of that frame, not a
+                 * frame: The decoder has to skip it. (After an invalid escape
+                 * sequence it has arranged for that itself.) */
+                p->ep.slip.state = RFC1055_SEARCH_FOR_END;
+            }
             if (cs.buffer.data != NULL) {
                 block_free(p->alloc, cs.buffer.data);
             }
